@@ -459,7 +459,63 @@ def r03_11(run, model):
                 run.ob("R03.11", f"{f.qual}|{kind} #{seen_pairs[kind]}", excl, site(CHECK, l2["sp"]),
                        f"loops over `{c1}` at lines {l1['sp'][0]} and {l2['sp'][0]} " + ("are in exclusive branches" if excl else "can both run: every argument is inferred and then checked again"),
                        witness="id(id(id(…id(1)…))) nested 22 deep takes 20 s and 1.8 GB (doubling per level); string_println(pr(7)) with pr(d: dyn Show) wraps 7 in dyn Show twice")
+        # a single element of a child list visited outside any loop (`args.first()`, `args[0]`) and the whole list visited by a loop that can run afterwards
+        lets = {}
+        for l in S.walk(f.body):
+            if l["k"] == "Local" and l.get("init") is not None:
+                for b in S.pat_bindings(l["pat"]):
+                    lets.setdefault(b, l["init"])
+        for c in S.walk_no_closures(f.body):
+            if c["k"] != "MethodCall" or c["method"] not in ("infer_expr", "check_expr") or not c["args"]:
+                continue
+            if any(S.span_contains(l["sp"], c["sp"]) for l, _, _ in loops):
+                continue
+            src = None
+            for a in c["args"]:
+                for idn in S.idents(a):
+                    init = lets.get(idn)
+                    if init is None:
+                        continue
+                    it = S.norm_ws(run.facts.text(CHECK, init["sp"]))
+                    m = re.match(r"(\w+)\.(first|last)\(\)|(\w+)\[0\]|(\w+)\.get\(0\)", it)
+                    if m:
+                        src = next(g for g in m.groups() if g and g not in ("first", "last"))
+            if src is None:
+                continue
+            for l2, c2, v2 in loops:
+                if c2 != src or (l2["sp"][0], l2["sp"][1]) < (c["sp"][0], c["sp"][1]):
+                    continue
+                it2 = S.norm_ws(run.facts.text(CHECK, l2["iter"]["sp"]))
+                skips = ".skip(1)" in it2
+                # exclusive if a return sits between the single visit and the loop on every path from the visit's block
+                excl = False
+                for blk in (a for a in par_all(f).ancestors(c) if a["k"] == "Block"):
+                    if S.span_contains(blk["sp"], l2["sp"]):
+                        break
+                    tail = [st for st in blk["stmts"] if (st["sp"][0], st["sp"][1]) > (c["sp"][0], c["sp"][1])]
+                    if tail and (tail[-1].get("expr") or tail[-1])["k"] == "Return":
+                        excl = True
+                        break
+                # the result of the single visit is re-used by the loop instead of visiting the element again
+                reused = False
+                for l in S.walk(l2["body"]):
+                    if l["k"] in ("If", "Match") and re.search(r"idx==0|\.take\(\)", S.norm_ws(run.facts.text(CHECK, l["sp"]))[:200]):
+                        reused = True
+                ok = skips or excl or reused
+                n += 1
+                run.ob("R03.11", f"{f.qual}|first element of `{src}` visited once", ok, site(CHECK, l2["sp"]),
+                       f"`{src}.first()` is visited at line {c['sp'][0]} and the loop at line {l2['sp'][0]} walks `{it2[:40]}`" +
+                       ("" if ok else ": the first element is inferred twice"),
+                       witness="Inc::inc(describe(p)) with describe(d: dyn Show): the receiver is inferred twice, the coercion is recorded twice - "
+                               "describe(to_dyn(to_dyn(p))), the wrapper's self.(P) panics; 22 nested UFCS calls take 28 s")
     run.floor("typer loops that visit child expressions", n, 8)
+
+
+def par_all(f, _cache={}):
+    k = (f.file, f.qual)
+    if k not in _cache:
+        _cache[k] = S.Parents(f.body)
+    return _cache[k]
 
 
 def r03_12(run, model):
@@ -720,6 +776,70 @@ def r03_19(run, model):
                witness="with `ty: expected.clone()` the trailing equation of check_expr compares expected with itself")
 
 
+def r03_20(run, model):
+    run.rule("R03.20", "a Core `let` has the type of its body: every `core::Expr::ELet` the match compiler builds takes its `ty` from the "
+                       "expression it stands for (the threaded result type, or the body's own type), never from the bound variable, the "
+                       "pattern or the bound value - later stages read that field as the type of the whole expression (the impl of a UFCS "
+                       "call and the instance of a generic call are chosen from the type of the argument)")
+    CM = "crates/compiler/src/compile_match.rs"
+    n = 0
+    for f in model.fns(CM):
+        if f.body is None:
+            continue
+        k = 0
+        for st in S.walk(f.body):
+            if st["k"] != "Struct" or st["segs"][-1] != "ELet" or st["segs"][0] not in ("core", "Expr") or (st["segs"][0] == "Expr"):
+                continue
+            fields = {fl["name"]: fl["expr"] for fl in st["fields"]}
+            if "ty" not in fields or "value" not in fields or "body" not in fields:
+                continue
+            n += 1
+            k += 1
+            t = fields["ty"]
+            tt = S.norm_ws(run.facts.text(CM, t["sp"]))
+            value_ids = S.idents(fields["value"]) - S.idents(fields["body"])
+            name_ids = S.idents(fields.get("name", {"k": "Lit"})) if "name" in fields else set()
+            bad = (S.idents(t) & value_ids) or re.search(r"\bpat(_ty)?\b|\bfirst\b|\bvar\.ty\b", tt)
+            run.ob("R03.20", f"{f.name}|let #{k} is typed by its body", not bad, site(CM, st["sp"]), f"ty: {tt[:60]}",
+                   witness="Show::show(match m { _ => { string_println(\"building\"); Empty {} } }): the block's let node is typed `unit` (its first statement), "
+                           "so the call is lowered to trait_impl#Show#unit#show and prints `unit` instead of `Empty`")
+    run.floor("core lets built by the match compiler", n, 8)
+
+
+def r03_21(run, model):
+    run.rule("R03.21", "an unknown field is an error in every pipeline: the function that gives a struct field access its type answers from "
+                       "the struct's declared fields only - no field name is special-cased (a name the editor inserts for completion is an "
+                       "ordinary identifier a user can write too, and the back end has no such field)")
+    UNI_ = "crates/compiler/src/typer/unify.rs"
+    target = None
+    for f in model.fns(UNI_):
+        if f.body is not None and "has no field" in "".join(x.get("value", "") for x in S.walk(f.body) if x["k"] == "Lit" and isinstance(x.get("value"), str)):
+            target = f
+    if target is None:
+        # the message is built by format!: look at macro tokens
+        for f in model.fns(UNI_):
+            if f.body is not None and "has no field" in S.norm_ws(run.facts.text(UNI_, f.body["sp"])).replace(" ", ""):
+                target = f
+        if target is None:
+            for f in model.fns(UNI_):
+                if f.body is not None and "hasnofield" in S.norm_ws(run.facts.text(UNI_, f.body["sp"])):
+                    target = f
+    if target is None:
+        raise AnalysisIncomplete("typer/unify.rs: the function that reports `has no field` was not found")
+    special = []
+    for iff in S.find(target.body, "If"):
+        for b in S.walk(iff["cond"]):
+            if b["k"] == "Binary" and b["op"] == "==":
+                l, r = S.norm_ws(run.facts.text(UNI_, b["left"]["sp"])), S.norm_ws(run.facts.text(UNI_, b["right"]["sp"]))
+                for a, o in ((l, r), (r, l)):
+                    if re.fullmatch(r"field(\.0)?", a) and (re.fullmatch(r"[A-Z][A-Z0-9_]+", o) or o.startswith('"')):
+                        special.append(f"{a} == {o}")
+    run.ob("R03.21", f"{target.name}|no field name is accepted without a declaration", not special, site(UNI_, target.node["sp"]),
+           f"field names compared with a constant: {special or 'none'}",
+           witness="struct P { a: int32 } .. let u = p.completion_placeholder; passes the type checker (typed unit), `check` writes an interface, "
+                   "`run`/`build` panic in compile_match: Struct P has no field completion_placeholder")
+
+
 def run(run, model):
     run.try_rule(r03_1, model)
     run.try_rule(r03_2, model)
@@ -738,6 +858,8 @@ def run(run, model):
     run.try_rule(r03_17, model)
     run.try_rule(r03_18, model)
     run.try_rule(r03_19, model)
+    run.try_rule(r03_20, model)
+    run.try_rule(r03_21, model)
     from rules import c17
     run.try_rule(c17.r17_9, model)
     run.try_rule(c07.r07_4, model)
